@@ -853,6 +853,9 @@ func orderProgress(r *engine.Run) {
 			}
 		}
 		if cur == nil {
+			cur = paramRole(f, "ind") // the *int parameter, whatever it is called
+		}
+		if cur == nil {
 			r.Anchor(rule, fmt.Errorf("unresolved anchor: cursor parameter of %s", fn(f)))
 			continue
 		}
@@ -871,6 +874,55 @@ func orderProgress(r *engine.Run) {
 				}
 			}
 		})
+		// or a helper that is handed the cursor and advances it on every successful return
+		incStore := func(g *ssa.Function, cur ssa.Value) *ssa.Store {
+			var out *ssa.Store
+			engine.Instrs(g, func(in ssa.Instruction) {
+				st, ok := in.(*ssa.Store)
+				if !ok || st.Addr != cur {
+					return
+				}
+				if b, ok := st.Val.(*ssa.BinOp); ok && b.Op == token.ADD {
+					if k, isK := intConst(b.Y); isK && k == 1 {
+						if ld, ok := b.X.(*ssa.UnOp); ok && ld.X == cur {
+							out = st
+						}
+					}
+				}
+			})
+			return out
+		}
+		var advancing []ssa.Instruction
+		engine.Instrs(f, func(in ssa.Instruction) {
+			c, ok := in.(*ssa.Call)
+			if !ok {
+				return
+			}
+			g := c.Call.StaticCallee()
+			if g == nil || g == f || len(g.Blocks) == 0 || !inRepo(g) {
+				return
+			}
+			for i, a := range c.Call.Args {
+				if a != cur || i >= len(g.Params) {
+					continue
+				}
+				gi := incStore(g, g.Params[i])
+				if gi == nil {
+					continue
+				}
+				all := true
+				for _, ret := range engine.Returns(g) {
+					last := ret.Results[len(ret.Results)-1]
+					if nilConst(last) && !engine.InstrDominates(gi, ret) {
+						all = false
+					}
+				}
+				// the recursion must lie behind the helper's success: its error tested nil
+				if all {
+					advancing = append(advancing, c)
+				}
+			}
+		})
 		n := 0
 		engine.Instrs(f, func(in ssa.Instruction) {
 			c, ok := in.(*ssa.Call)
@@ -879,6 +931,27 @@ func orderProgress(r *engine.Run) {
 			}
 			n++
 			good := inc != nil && engine.InstrDominates(inc, c)
+			for _, a := range advancing {
+				ac := a.(*ssa.Call)
+				if !engine.InstrDominates(a, c) {
+					continue
+				}
+				tup, _ := ac.Type().(*types.Tuple)
+				if tup == nil {
+					continue
+				}
+				errv := extractOf(ac, tup.Len()-1)
+				if errv == nil {
+					continue
+				}
+				if facts, ok := engine.FactsOn(f, c.Block()); ok {
+					for _, ft := range facts {
+						if ft.Kind == "eq" && ft.Truth && (ft.A == ssa.Value(errv) && nilConst(ft.B) || ft.B == ssa.Value(errv) && nilConst(ft.A)) {
+							good = true
+						}
+					}
+				}
+			}
 			// bounds test of the cursor dominates too: a fact (*ind < len(pairs)) at the element access
 			r.Check(good, rule, fmt.Sprintf("%s|recursion#%d", fn(f), n), r.P.Pos(c.Pos()), "cursor incremented before the recursive call", "a recursive call is reachable without the cursor having advanced: a crafted proof makes the decoder recurse without bound")
 		})
